@@ -10,7 +10,7 @@ import urllib.parse
 from .. import core, ref_seq, refval
 from ..ref_seq import FAIL, NAMES, SIG, Bad, BadWith, model_call
 
-STRS = ['', 'a', 'abc', 'a,b,,c', '  pad ', 'AbC', 'abcabc', 'b', 'é😀x', 'x😀', 'aXa']
+STRS = ['', 'a', 'abc', 'a,b,,c', '  pad ', 'AbC', 'abcabc', 'b', 'é😀x', 'x😀', 'aXa', 'Straße', 'ΣΑΣ', 'ǅ', 'ﬁ İ', 'ſŉµ']
 
 
 def plan(tier, seed):
@@ -108,9 +108,12 @@ def gen_history(rnd, nops):
         args = []
         asrc = []
 
+        kinds = []
+
         def add(v, var=None):
             args.append(v)
             asrc.append(('var', var) if var is not None else ('lit', v))
+            kinds.append(cur[0])
 
         def container(kind):
             cands = [k for k in pool if isinstance(pool[k], list if kind == 'A' else dict)]
@@ -124,8 +127,10 @@ def gen_history(rnd, nops):
                 else:
                     add(scalar(rnd))
         stop = False
+        cur = ['?']
         for t in re.findall(r'[A-Za-z][?*]?', sig):
             opt, star, c = t.endswith('?'), t.endswith('*'), t[0]
+            cur[0] = c
             if opt and rnd.random() < 0.4:
                 break
             reps = rnd.randint(0, 3) if star else 1
@@ -168,6 +173,14 @@ def gen_history(rnd, nops):
                 break
         if rnd.random() < 0.05:
             add(scalar(rnd))
+        cur[0] = '?'
+        if args and rnd.random() < 0.05:
+            # a MISSING argument: the call has fewer arguments than the function requires (or simply fewer than usual). An argument
+            # that may be any value cannot be told from an omitted one (it reads as null), so only typed positions are cut off
+            cut = rnd.randint(1, len(args))
+            if 'v' not in kinds[len(args) - cut:]:
+                del args[len(args) - cut:]
+                del asrc[len(asrc) - cut:]
         # no cycles: nothing inserted into the first argument may (transitively) contain it
         if args and isinstance(args[0], (list, dict)):
             for j in range(1, len(args)):
